@@ -97,6 +97,25 @@
 //@   replace_re? "\\.ok_or_else\\(Error::no_more_code_id_available\\)" => ".ok_or(AnyError)"
 //@   begin proof { lemma_max_id(self.code_data@); }
 //@ end
+// ---- a new keeper has no codes
+//@ fn src/wasm.rs :: Default for WasmKeeper :: default
+//@   ret r
+//@   ensures [C11.default.empty,C12] r.code_base@.len() == 0 && r.code_data@ == vstd::map::Map::<u64, CodeData>::empty() && r.codes_wf()
+//@   replace "std::marker::PhantomData" => "core::marker::PhantomData"
+//@ end
+//@ fn src/wasm.rs :: WasmKeeper :: new
+//@   ret r
+//@   ensures [C11.new.empty,C12] r.code_base@.len() == 0 && r.code_data@ == vstd::map::Map::<u64, CodeData>::empty() && r.codes_wf()
+//@ end
+// ---- builders: replacing a generator keeps the code tables (a keeper populated with codes can still be customised)
+//@ fn src/wasm.rs :: WasmKeeper :: with_address_generator
+//@   ret r
+//@   ensures [C11.with_addr_gen.keeps_codes,C12] r.code_base == self.code_base && r.code_data == self.code_data && r.checksum_generator == self.checksum_generator
+//@ end
+//@ fn src/wasm.rs :: WasmKeeper :: with_checksum_generator
+//@   ret r
+//@   ensures [C11.with_sum_gen.keeps_codes,C12] r.code_base == self.code_base && r.code_data == self.code_data && r.address_generator == self.address_generator
+//@ end
 }
 
 // raw key of the registry record: what CONTRACTS.load(prefixed_read(storage, "wasm"), addr) reads
